@@ -124,7 +124,7 @@ Print Assumptions C04_band.
 
 (* ---- flat gain profile: the mean linear gain of the returned profile is the effective gain *)
 Theorem C04_flat_profile_mean : forall (a : ampR) freqs pin dgt ripple (pin_db eff : R),
-  (2 <= length dgt)%nat -> length ripple = length dgt ->
+  (1 <= length dgt)%nat -> length ripple = length dgt ->
   Rabs (@deltax_of NumR (g1st_of a freqs dgt ripple)) <= 5 / 100 ->
   @nmean NumR (map db2linR (gain_profile a freqs pin dgt ripple pin_db eff)) = db2linR eff.
 Proof. exact flat_profile_mean. Qed.
